@@ -34,6 +34,25 @@ if [ "$1" = "--replay" ]; then
 fi
 TIER=quick
 if [ "$1" = "--tier" ]; then TIER=$2; shift 2; fi
+SELF=""
+if [ "$PROP" = "C12" ] && [ "$TIER" = "thorough" ]; then
+  # instrumentation self-check: the repository's own tests against the instrumented build, shim in pass-through mode
+  cp $REPO/go.mod $scratch/self.mod; cp $REPO/go.sum $scratch/self.sum
+  printf '\nrequire verif/shim v0.0.0\n\nreplace verif/shim => %s/shim\n' "$V" >> $scratch/self.mod
+  (cd /repo && timeout 600 go test -modfile=$scratch/self.mod -overlay $scratch/overlay.json -vet=off -count=1 -json . 2>/dev/null) | python3 -c "
+import sys,json
+p=set();f=set()
+for l in sys.stdin:
+    try: e=json.loads(l)
+    except: continue
+    if e.get('Test') and '/' not in e['Test']:
+        if e['Action']=='pass': p.add(e['Test'])
+        if e['Action']=='fail': f.add(e['Test'])
+json.dump({'instrumented_suite_pass':len(p),'instrumented_suite_fail':sorted(f)},open('$scratch/selfcheck.json','w'))
+print('instrumentation self-check: %d repository tests pass on the instrumented build (pass-through mode), %d fail %s' % (len(p),len(f),sorted(f)))
+"
+  SELF="-selfcheck $scratch/selfcheck.json"
+fi
 OUT=$V
 if [ "$REPO" != "/repo" ]; then OUT=${VERIF_OUT:-$scratch/out}; mkdir -p $OUT/evidence $OUT/replays; fi
-$scratch/mc check -prop $PROP -tier $TIER -evidence $OUT/evidence/$PROP.json -replays $OUT/replays -known $V/known_findings.json -instr-stats $scratch/stats.json "$@"
+$scratch/mc check -prop $PROP -tier $TIER -evidence $OUT/evidence/$PROP.json -replays $OUT/replays -known $V/known_findings.json -instr-stats $scratch/stats.json $SELF "$@"
